@@ -262,7 +262,7 @@ Proof. split; vm_compute; reflexivity. Qed.
    and offers 2 bytes then blocks until Close *)
 Example c20_example_proxy :
   IO.Spec.step StProxy [1; 0; 0; 0; 0; 2; 3; 9000; 2; 1; 5000; 1; 2] =
-    Some (StProxy, [2; 3; 8192; 5000; hash (map (datab 1) (seq 0 5000)); 1; 2; 2; hash (map (datab 2) (seq 0 2)); 2; 2; 2]).
+    Some (StProxy, [5000; hash (map (datab 1) (nseq 0 5000)); 2; hash (map (datab 2) (nseq 0 2)); 1; 1; 2]).
 Proof. vm_compute. reflexivity. Qed.
 End Examples.
 
